@@ -14,7 +14,8 @@ theorem RunOK.job_step {cfg : Cfg} {s : St} {d d' : Disk} (h : RunOK cfg s d)
     (hnf : s.nextFile ≤ nf') (hj : d'.journals = d.journals)
     (hmfd : MfdOK (s.upd j' nf' l' a' b' m' o') d' ∧ o' = true)
     (hcur : Holds d'.current (· < nf'))
-    (hnc : j'.pc.beforeCommit = true → NoCommitYet s ∧ lastView cfg d' = lastView cfg d)
+    (hnc : s.frozen ≠ none → FlushPending (s.upd j' nf' l' a' b' m' o') → FlushPending s ∧
+      Holds (lastView cfg d') fun v' => Holds (lastView cfg d) fun v => v'.jn ≤ v.jn ∧ v'.sq ≤ v.sq)
     (hrel : Holds (curManifest d') fun mf' => Holds (viewAt cfg mf' 0) fun v0' =>
       Holds (curManifest d) fun mf => Holds (viewAt cfg mf 0) fun v0 => v0.jn ≤ v0'.jn) :
     RunOK cfg (s.upd j' nf' l' a' b' m' o') d' := by
@@ -25,10 +26,17 @@ theorem RunOK.job_step {cfg : Cfg} {s : St} {d d' : Disk} (h : RunOK cfg s d)
     · exact frozenOK_iff.2 (Or.inl ⟨h1, h2⟩)
     · refine frozenOK_iff.2 (Or.inr ⟨fz, jf, h1, h2, f1, f2, f3, f4, by rw [hj]; exact f5, ?_⟩)
       intro hn
-      have hbc : j'.pc.beforeCommit = true := hn
-      obtain ⟨hn', hlv⟩ := hnc hbc
-      rw [hj, hlv]
-      exact f6 hn'
+      obtain ⟨hn', hlv⟩ := hnc (by rw [h1]; exact fun hx => nomatch hx) hn
+      obtain ⟨hp, hv⟩ := f6 hn'
+      rw [hj]
+      refine ⟨hp, ?_⟩
+      rw [holds_iff] at hlv hv ⊢
+      obtain ⟨v', hv', hlv⟩ := hlv
+      rw [holds_iff] at hlv
+      obtain ⟨v, hv0, hle⟩ := hlv
+      obtain ⟨v1, hv1, hb1⟩ := hv
+      rw [hv0] at hv1; cases hv1
+      exact ⟨v', hv', Nat.le_trans hle.1 hb1.1, Nat.le_trans hle.2 hb1.2⟩
   · refine hrel.imp (fun mf' hmf' => hmf'.imp (fun v0' hv0' p hp hjn => ?_))
     rw [holds_iff] at hv0'
     obtain ⟨mf, hmf, hv0'⟩ := hv0'
@@ -80,12 +88,27 @@ theorem RecOK.job_step {cfg : Cfg} {s : St} {d d' : Disk} {r : Recov} (h : RecOK
     rw [hj] at hp
     exact (holds_some r9 hv).1 p hp (Nat.le_trans hle hjn)
 
+/-- a step of the job that keeps its kind and does not go back behind the commit keeps `FlushPending` backwards -/
+theorem flushPending_of_step {s : St} {j j' : Job} {nf' : Nat} {l' : List Nat} {a' b' : Nat} {m' : Option Nat}
+    {o' : Bool} (hj : s.job = some j) (hk : j'.kind = j.kind)
+    (hpc : j.kind = .flush → j.pc.beforeCommit = false → j'.pc.beforeCommit = false)
+    (h : FlushPending (s.upd j' nf' l' a' b' m' o')) : FlushPending s := by
+  unfold FlushPending at h ⊢
+  rw [hj]
+  intro hf
+  have h' : j'.kind = .flush → j'.pc.beforeCommit = true := h
+  have := h' (by rw [hk]; exact hf)
+  cases hb : j.pc.beforeCommit with
+  | true => rfl
+  | false => rw [hpc hf hb] at this; cases this
+
 /-- both phase facts at once, for steps that change neither journals nor the manifest `CURRENT` names -/
 theorem phase_frame {cfg : Cfg} {s : St} {d d' : Disk} (h : Inv cfg s d) (j' : Job) (nf' : Nat)
     (hnf : s.nextFile ≤ nf') (hj : d'.journals = d.journals) (hc : d'.current = d.current)
     (hcm : curManifest d' = curManifest d)
     (hpc : ∀ m, j'.pc ≠ .rotRemove m) (hjob : ∃ j, s.job = some j ∧ ∀ m, j.pc ≠ .rotRemove m)
-    (hbc : j'.pc.beforeCommit = true → NoCommitYet s) :
+    (hbc : j'.pc.beforeCommit = true → NoCommitYet s)
+    (hkind : ∀ j, s.job = some j → j'.kind = j.kind ∧ (j.kind = .flush → j.pc.beforeCommit = false → j'.pc.beforeCommit = false)) :
     (s.phase = .running → RunOK cfg { s with job := some j', nextFile := nf' } d') ∧
     (s.phase = .recovering → Holds s.recov (RecOK cfg { s with job := some j', nextFile := nf' } d')) := by
   obtain ⟨j, hsj, hjpc⟩ := hjob
@@ -107,7 +130,8 @@ theorem phase_frame {cfg : Cfg} {s : St} {d d' : Disk} (h : Inv cfg s d) (j' : J
     have hrun := h.run hph
     exact hrun.job_step j' nf' s.live s.stJn s.stSq s.manifestFd s.manifestOpen hnf hj
       ⟨hmfd0 hrun.mfd.1, hrun.mfd.2⟩ (by rw [hc]; exact hrun.nums.2.imp (fun m hm => Nat.lt_of_lt_of_le hm hnf))
-      (fun hb => ⟨hbc hb, hlv⟩)
+      (fun _ hfp => ⟨flushPending_of_step hsj (hkind j hsj).1 (hkind j hsj).2 hfp,
+        by rw [hlv]; exact holds_of_some hlast (holds_of_some hlast ⟨Nat.le_refl _, Nat.le_refl _⟩)⟩)
       (by
         rw [hcm]
         exact holds_of_some hparts.cur (holds_of_some hparts.hv0 (holds_of_some hparts.cur
